@@ -84,11 +84,23 @@ Notation updateS := (update name entry String.eqb).
     ([super().__getattr__]). *)
 Record layer := { l_cached : list name; l_user : option string }.
 
+(** [getattr(base_cls, "__slots__", [])]: a single string (one slot) or a sequence of
+    names; each name comes with the id of [getattr(base_cls, name)], or None when that
+    getattr raises AttributeError. *)
+Inductive slots_decl :=
+| SlotsStr (n : name) (d : option nat)
+| SlotsSeq (l : list (name * option nat)).
+
+(** [if isinstance(base_slots, str): base_slots = (base_slots,)] - the names the scan visits. *)
+Definition iter_slots (s : slots_decl) : list (name * option nat) :=
+  match s with
+  | SlotsStr n d => [(n, d)]
+  | SlotsSeq l => l
+  end.
+
 Record base := {
   b_id : nat;
-  (** iteration of [getattr(base_cls, "__slots__", [])], each name with the id of
-      [getattr(base_cls, name)], or None when that getattr raises AttributeError *)
-  b_slots : list (name * option nat);
+  b_slots : slots_decl;
   b_weakref : bool;              (* base_cls.__dict__.get("__weakref__") is not None *)
   b_dict : bool;                 (* "__dict__" in base_cls.__dict__ : contributes an instance dict *)
   b_own_setattr : option bool;   (* base_cls.__dict__.get("__attrs_own_setattr__") *)
@@ -107,7 +119,7 @@ Record input := {
   i_mro : list base;               (* cls.__mro__[1:-1] *)
   i_weakref_slot : bool;
   i_cache_hash : bool;
-  i_orig_slots : list name;        (* getattr(cls, "__slots__", ()) *)
+  i_orig_slots : list name;        (* getattr(cls, "__slots__", ()) - no longer consulted (see add_weakref) *)
   i_wrote_own_setattr : bool;
   i_has_custom_setattr : bool;
   i_store : store;                 (* all closure cells before the call *)
@@ -141,7 +153,8 @@ Definition step_setattr (i : input) (cd : nsT) : nsT :=
     let cd1 := setitemS "__attrs_own_setattr__" (ID_FALSE, KPlain) cd in
     if slots_reset i then setitemS "__setattr__" (ID_OBJ_SETATTR, KPlain) cd1 else cd1.
 
-(** existing_slots / weakref_inherited: one pass over cls.__mro__[1:-1].
+(** existing_slots / weakref_inherited: one pass over cls.__mro__[1:-1] (a string [__slots__]
+    is one name since the repair e7beec5).
     [existing_slots.update({name: getattr(base_cls, name) for name in getattr(base_cls,
     "__slots__", [])})] - None when one of the getattrs raises AttributeError. *)
 Definition slot_map := ns name nat.
@@ -157,7 +170,7 @@ Fixpoint existing_slots (mro : list base) (acc : slot_map) : option slot_map :=
   match mro with
   | [] => Some acc
   | b :: r =>
-      match dict_of_slots (b_slots b) [] with
+      match dict_of_slots (iter_slots (b_slots b)) [] with
       | None => None
       | Some m => existing_slots r (update name nat String.eqb m acc)
       end
@@ -165,7 +178,13 @@ Fixpoint existing_slots (mro : list base) (acc : slot_map) : option slot_map :=
 
 Definition weakref_inherited (i : input) : bool := existsb b_weakref (i_mro i).
 
+(** [self._weakref_slot and "__weakref__" not in names and not weakref_inherited].
+    (Before the repair 0abf7ae a fourth conjunct [and "__weakref__" not in getattr(self._cls,
+    "__slots__", ())] was present: [add_weakref_old], kept for the witness of the old defect.) *)
 Definition add_weakref (i : input) : bool :=
+  i_weakref_slot i && negb (in_names "__weakref__" (i_attr_names i)) && negb (weakref_inherited i).
+
+Definition add_weakref_old (i : input) : bool :=
   i_weakref_slot i && negb (in_names "__weakref__" (i_orig_slots i)) &&
   negb (in_names "__weakref__" (i_attr_names i)) && negb (weakref_inherited i).
 
